@@ -39,15 +39,23 @@ type CutCase struct {
 func (c CutCase) Coq() string {
 	fr := map[string]int{"length": 1, "chunked": 2, "close": 3}[c.Framing]
 	_, hasErrHdr := c.Go.Get("X-Forwarder-Error")
+	// the intended body is the shared constant cut_body (defined once per shard) or a prefix of it
+	bodyRef := "cut_body"
+	if c.Body != cutBody {
+		bodyRef = fmt.Sprintf("(firstn %d cut_body)", len(c.Body))
+	}
 	minor := 1
 	if c.Proto == "HTTP/1.0" {
 		minor = 0
 	}
 	return fmt.Sprintf("(mkfcase %d %s %s %d %d %s %s %s %d %d %d %d %s %s %d %d %d %d)",
-		fr, coqfmt.Bool(c.End == "rst"), coqfmt.Bool(c.Full), c.UpStatus, c.BodySent, coqfmt.Str(c.Body),
+		fr, coqfmt.Bool(c.End == "rst"), coqfmt.Bool(c.Full), c.UpStatus, c.BodySent, bodyRef,
 		coqfmt.Bytes(c.Raw), coqfmt.Bool(c.ClientEnd == "eof"), verdictN(c.Go.Verdict), c.Go.Status, c.Go.BodyLen, c.Go.RestLen,
 		coqfmt.Bool(hasErrHdr), coqfmt.Bool(c.HarnessErr == ""), c.K, c.HeadLen, c.ReplyLen, minor)
 }
+
+// CutBodyCoq is the Gallina definition of the shared body constant.
+func CutBodyCoq() string { return "Definition cut_body : str := " + coqfmt.Str(cutBody) + ".\n" }
 
 const cutBody = "The quick brown fox jumps over the lazy dog. 0123456789\r\n0\r\n\r\nHTTP/1.1 200 OK\r\n\r\nend"
 
@@ -96,8 +104,14 @@ func CutCases(tier string) []CutCase {
 			for _, proto := range []string{"HTTP/1.1", "HTTP/1.0"} {
 				for _, end := range []string{"fin", "rst"} {
 					for k := 0; k <= len(reply); k++ {
-						if tier != "thorough" && (route == "upstream" || proto == "HTTP/1.0") && k%4 != 0 && k != len(reply) {
-							continue
+						_, hl := cutReply(framing)
+						if tier != "thorough" && k != len(reply) && k != hl {
+							if (route == "upstream" || proto == "HTTP/1.0") && k%4 != 0 {
+								continue
+							}
+							if k > hl && k%2 != 0 { // quick: every head offset, every second body offset
+								continue
+							}
 						}
 						out = append(out, CutCase{
 							Name:  fmt.Sprintf("cut-%s-%s-%s-%s-%d", route, framing, proto, end, k),
